@@ -273,8 +273,9 @@ def model_proj(m, reporter):
                 cur["st"] = w[6]
                 out.append(cur)
         elif reporter == "cdash":
-            if k == "testEnd":
-                pass
+            pass
+    if reporter in ("xml", "libxml"):
+        return sorted(f"case {'/'.join(c['path'][:-1])} {c['path'][-1]} fail={c['fail']} err={c['err']} skip={c['skip']}" for c in out)
     return out
 
 
@@ -331,7 +332,86 @@ def impl_proj(o, reporter, top="top"):
             if k == "ending" and "pass" in rest:
                 mm = re.search(r"(\d+) pass\w*, (\d+) failure\w*, (\d+) exception", rest)
                 out.append(f"totals {mm.group(1)} {mm.group(2)} - {mm.group(3)}")
+    elif reporter in ("xml", "libxml"):
+        cases, errors = xml_testcases(o)
+        out = sorted(f"case {c[0]} {c[1]} fail={c[2]} err={c[3]} skip={c[4]}" for c in cases)
+        out += ["xmlerror " + e for e in errors]
     return out
+
+
+class XmlTree:
+    """Minimal element tree built with expat (independent of libxml2)."""
+    def __init__(self, tag, attrs):
+        self.tag, self.attrs, self.children, self.text = tag, attrs, [], ""
+
+
+def parse_xml(data):
+    """Returns (root, None) or (None, error string). `data` is bytes."""
+    p = xml.parsers.expat.ParserCreate()
+    stack, root = [], [None]
+
+    def start(tag, attrs):
+        e = XmlTree(tag, attrs)
+        if stack: stack[-1].children.append(e)
+        else: root[0] = e
+        stack.append(e)
+
+    def end(tag):
+        stack.pop()
+
+    def chars(d):
+        if stack: stack[-1].text += d
+    p.StartElementHandler, p.EndElementHandler, p.CharacterDataHandler = start, end, chars
+    try:
+        p.Parse(data, True)
+    except xml.parsers.expat.ExpatError as ex:
+        return None, str(ex)
+    return root[0], None
+
+
+def xml_testcases(o):
+    """[(classname, name, n_failure, n_error, n_skipped, [failure messages])] over all suite files, plus parse errors."""
+    cases, errors = [], []
+    for fname, data in sorted(o.files.items()):
+        if "Testing/" in fname:
+            continue
+        root, err = parse_xml(data)
+        if err:
+            errors.append(f"{fname}: {err}")
+            continue
+
+        def walk(e):
+            if e.tag == "testcase":
+                cases.append((e.attrs.get("classname", ""), e.attrs.get("name", ""),
+                              sum(1 for c in e.children if c.tag == "failure"),
+                              sum(1 for c in e.children if c.tag == "error"),
+                              sum(1 for c in e.children if c.tag == "skipped"),
+                              [c.attrs.get("message", "") for c in e.children if c.tag == "failure"],
+                              [c.tag for c in e.children]))
+            for c in e.children:
+                walk(c)
+        walk(root)
+    return cases, errors
+
+
+def cdash_counts(o):
+    """(passed, failed, incomplete) <Test Status=...> entries per test name, and parse error if any."""
+    for fname, data in o.files.items():
+        if fname.endswith("Test.xml"):
+            root, err = parse_xml(data)
+            if err:
+                return None, err
+            per = {}
+
+            def walk(e):
+                if e.tag == "Test" and "Status" in e.attrs:
+                    name = next((c.text for c in e.children if c.tag == "Name"), "")
+                    per.setdefault(name, [0, 0, 0])[["passed", "failed", "incomplete"].index(e.attrs["Status"])] += 1
+                for c in e.children:
+                    walk(c)
+            walk(root)
+            return per, None
+    return None, "no Test.xml"
 
 
 def canon_events(lines_or_model, from_model):
@@ -385,7 +465,7 @@ def compare(m, o, reporter, check_events=True):
         ds.append(f"status: model={model_status(m)} impl={status_of(o)}")
     # when the run itself is ended from inside test code, what reached stdout depends on stdio buffering
     # of the dying process: only the status and the (unbuffered) event log are compared then
-    if reporter in ("text", "quiet", "cute") and m.halted is None:
+    if reporter in ("text", "quiet", "cute", "xml", "libxml") and m.halted is None:
         d = diff_lists(model_proj(m, reporter), impl_proj(o, reporter), f"{reporter} output")
         if d:
             ds.append(d)
